@@ -47,7 +47,7 @@ def required(tier):
     return {"records_roundtripped": 1500, "records_with_alts": 800, "records_multiallelic_site": 200, "records_no_alt": 50,
             "records_no_variable_site": 50, "sites_checked": 2000, "pipelines_run": 20, "pipeline_records_checked": 60,
             "pipeline_gts_checked": 150, "assemble_records_snvpos_checked": 40,
-            "pipelines_pooled": 4, "pipelines_call_prior_from_assemble_afp": 6, "pipelines_wide_locus": 2}
+            "records_read_with_zero_prior_alleles": 200, "pipelines_pooled": 4, "pipelines_call_prior_from_assemble_afp": 6, "pipelines_wide_locus": 2}
 
 
 def run_fn(tier, seed, spec, col):
@@ -71,6 +71,12 @@ def run_fn(tier, seed, spec, col):
             if "info" in r:
                 r["info"]["SNVPOS"] = ",".join(str(x + 1) for x in r["var_cols"]) if r["var_cols"] else "."
                 r["info"]["NVAR"] = str(len(r["var_cols"]))
+                # session 4: a prior-frequency field with exact zeros (and sometimes all zeros); the calling programs read the record
+                # with frequency_tag="AFP" under --prior-frequencies AFP - the listed sequences and their SNVs must not depend on it
+                w = np.round(rng.dirichlet(np.ones(1 + len(r["alts"]))), 3)
+                if len(w) > 1 and rng.random() < 0.6:
+                    w[rng.random(len(w)) < 0.4] = 0.0
+                r["info"]["AFP"] = ",".join(repr(float(x)) for x in w)
         path = hapvcf.write(os.path.join(root, "f%d.vcf" % fI), hapvcf.render(contigs, recs, info_defs=hapvcf.STD_INFO))
         want = {(r["contig"], r["pos0"]): r for r in recs}
         with pysam.VariantFile(path) as vf:
@@ -87,8 +93,13 @@ def run_fn(tier, seed, spec, col):
                     col.count("records_no_alt")
                 if not r["var_cols"]:
                     col.count("records_no_variable_site")
+                use_tag = "AFP" in rec.info and (rec.start + fI) % 2 == 0
+                if use_tag:
+                    col.count("records_read_with_prior_frequency_tag")
+                    if any(float(v) == 0.0 for v in rec.info["AFP"]) and any(float(v) > 0.0 for v in rec.info["AFP"]):
+                        col.count("records_read_with_zero_prior_alleles")
                 try:
-                    locus = LocusPrior.from_variant_record(rec)
+                    locus = LocusPrior.from_variant_record(rec, frequency_tag="AFP") if use_tag else LocusPrior.from_variant_record(rec)
                     haps = locus.encode_haplotypes()
                     back = locus.format_haplotypes(haps)
                 except Exception as ex:  # noqa: BLE001
